@@ -202,7 +202,7 @@ def judge(spec, tier="quick"):
                 if not ok_tau.all():
                     bad = ~ok_tau
                     if mech == "CaT":
-                        # region of the open finding N6: an exponential argument of tau_u exceeds 20
+                        # region of the (repaired) finding N6: an exponential argument of tau_u exceeds 20
                         w = v + P["vx"]
                         sat = gfun(v, P, saturate_at=20.0)[2]
                         n6 = bad & (w > -20.0) & (np.abs(b - sat) <= 1e-7 * np.abs(sat))
